@@ -43,7 +43,19 @@ RotateVerdict(e) ==
             LET x == Rotate(e.h, e.node) IN [l |-> x.l, r |-> x.r, p |-> x.p] THEN {} ELSE {"exact"})
    \cup (IF e.ret_self THEN {} ELSE {"returns_self"})
 
+\* look-ups repeated on the same objects after in-place edits (rotate, swapped operands, a new root, an unlinked node): at every
+\* step each answer is judged against the link structure AS IT IS THEN (an index built earlier must not survive an edit)
+EditSessionVerdict(e) ==
+  UNION {LET st == e.steps[k]  h == st.h IN
+         (IF \A j \in 1..Len(st.findid) : LET f == st.findid[j]
+                                               have == {i \in Reach(h, f.start) : h.nid[i] = f.id} IN
+                IF have = {} THEN f.got = 0 ELSE f.got \in have THEN {} ELSE {"find_id_after_" \o st.after})
+         \cup (IF \A j \in 1..Len(st.lists) : st.lists[j].got = InOrderNodes(h, st.lists[j].start) THEN {} ELSE {"to_list_after_" \o st.after})
+         \cup (IF \A j \in 1..Len(st.roots) : st.roots[j].got = RootOf(h, st.roots[j].start) THEN {} ELSE {"get_root_after_" \o st.after})
+        : k \in 1..Len(e.steps)}
+
 Verdict(e) == CASE e.typ = "visit" -> VisitVerdict(e)
+                [] e.typ = "editsession" -> EditSessionVerdict(e)
                 [] e.typ = "rotate" -> RotateVerdict(e)
                 [] OTHER -> {"harness_unknown_event"}
 VARIABLES i, v
